@@ -811,6 +811,7 @@ def run_family(ctx, part):
             for cell in c09_extra.stream_cells(ctx.seed):
                 c09_extra.run_stream_cell(ctx, fam, cell, given)
             c09_extra.run_encoding_cells(ctx, fam, given)
+            c09_extra.run_spelling_cells(ctx, fam, given)
         elif sel == "options":
             from mc.props import c09_extra
 
@@ -857,6 +858,7 @@ def run(ctx):
         "and EXTENT cells (c09_extra: multi-record texts with a damaged 2nd / 3rd / last record or trailing garbage through every reader, otype and name); "
         "a family of molli-written UTF-8 files with 2-, 3- and 4-byte characters in every free-text position (molecule name / xyz comment, atom labels, mol2 comment lines, a cdxml label) through the whole matrix, "
         "ENCODING cells (c09_extra: load / load_all by path against loads / loads_all of the same text and against the class method on a stream opened as utf-8), "
+        "SPELLING cells (c09_extra: writer= / parser= names in Capitalised / UPPER / Title case on dump -> stream, dump -> path, dumps, load, loads, load_all, loads_all must give the outcome of the all-lower-case call; fmt and otype strings in other spellings give the lower-case result or are refused), "
         "KEY cells (c09_extra: ml.load(cdxml, key=K) for every label, every integer position incl. 0, -1 and one past the end, and '' - on the drawing and on a copy with the fragments stored in reverse order), "
         "STREAM-KIND cells (c09_extra: dump into StringIO, file objects opened w / a / r+, NamedTemporaryFile, codecs.open, a write()-only object, a tee, an os.PathLike, a bytes path; load from the corresponding sources), "
         "the name override drawn from an alphabet (empty, plain, hyphen, comma, dot, parentheses, blank, unicode, 200 characters, digits), "
@@ -933,6 +935,11 @@ def replay(ctx, case):
         cell = case["cell"]
         if cell["op"] == "read":
             run_reader_cell(ctx, fam, cell, case["given"])
+        elif cell["op"] == "spelling":
+            from mc.props import c09_extra
+
+            # the cell is part of one sweep: the sweep is repeated and reports the cell again if it still fails
+            c09_extra.run_spelling_cells(ctx, fam, case["given"])
         elif cell["op"] == "encoding":
             from mc.props import c09_extra
 
